@@ -98,12 +98,12 @@ func (p *pool) Reap(int) []types.Tx {
 	rs := p.node.cs.VerifRoundState()
 	return []types.Tx{types.Tx(fmt.Sprintf("tx-n%d-h%d-r%d", p.node.Idx, rs.Height, rs.Round))}
 }
-func (p *pool) ReceiveTx(types.Tx) error                   { return nil }
-func (p *pool) Update(int64, []types.Tx)                   {}
-func (p *pool) Size() int                                  { return 0 }
-func (p *pool) TxsFrontWait() *clist.CElement              { return nil }
-func (p *pool) Flush()                                     {}
-func (p *pool) RegisterFilter(types.IFilter)               {}
+func (p *pool) ReceiveTx(types.Tx) error                  { return nil }
+func (p *pool) Update(int64, []types.Tx)                  {}
+func (p *pool) Size() int                                 { return 0 }
+func (p *pool) TxsFrontWait() *clist.CElement             { return nil }
+func (p *pool) Flush()                                    {}
+func (p *pool) RegisterFilter(types.IFilter)              {}
 func (p *pool) GetPendingMaxNonce([]byte) (uint64, error) { return 0, nil }
 
 type executor struct{ nt *Net }
@@ -129,16 +129,16 @@ func AppHashFor(b *types.Block) []byte {
 
 // Emitted is one message a node put on its internal queue.
 type Emitted struct {
-	Seq    int
-	From   int
-	Kind   string // proposal | part | prevote | precommit
-	Height int64
-	Round  int64
-	Msg    pbft.ConsensusMessage
-	Parts  types.PartSetHeader // for proposal/part: the part-set header it belongs to
-	Block  string              // canonical block name ("" = nil)
-	Forged bool                // produced by a Byzantine rule, not by a state machine
-	targets map[int]bool       // nil = everybody
+	Seq     int
+	From    int
+	Kind    string // proposal | part | prevote | precommit
+	Height  int64
+	Round   int64
+	Msg     pbft.ConsensusMessage
+	Parts   types.PartSetHeader // for proposal/part: the part-set header it belongs to
+	Block   string              // canonical block name ("" = nil)
+	Forged  bool                // produced by a Byzantine rule, not by a state machine
+	targets map[int]bool        // nil = everybody
 }
 
 type delivery struct {
@@ -198,23 +198,23 @@ func (n *Node) onWrite(site string) {
 
 // Net is one execution.
 type Net struct {
-	Sc      *Scenario
-	Dir     string
-	Nodes   []*Node
-	Vals    []*types.Validator
-	GenDoc  *types.GenesisDoc
-	Ledger  []*Emitted
-	seq     int
-	Steps   int
-	blocks  map[string]string // hash hex -> canonical name
-	Blocks  map[string]*types.Block
-	Trace   []string
-	Mon     *Monitors
-	writeLog []string
-	rulesOn  bool
-	fired    map[int]int
-	altBlock map[string]*altBlock // key h/r -> alternative block made by the byzantine proposer rule
-	quiesce  int
+	Sc          *Scenario
+	Dir         string
+	Nodes       []*Node
+	Vals        []*types.Validator
+	GenDoc      *types.GenesisDoc
+	Ledger      []*Emitted
+	seq         int
+	Steps       int
+	blocks      map[string]string // hash hex -> canonical name
+	Blocks      map[string]*types.Block
+	Trace       []string
+	Mon         *Monitors
+	writeLog    []string
+	rulesOn     bool
+	fired       map[int]int
+	altBlock    map[string]*altBlock // key h/r -> alternative block made by the byzantine proposer rule
+	quiesce     int
 	stateHashes []uint64
 	claimed     map[string]bool
 	Ref         *RefDigests // C07: digests of the uncrashed reference run
@@ -222,6 +222,7 @@ type Net struct {
 	injStats    *InjStats
 	solo        *soloBlocks
 	devMode     bool
+	drift       bool // a node runs with a wrong cached proposer after a reload (NoProposerFix scenarios)
 	decision    int
 	decisions   []int // number of alternatives at each scheduling decision (reference runs)
 }
@@ -1023,6 +1024,11 @@ func (nt *Net) checkReloadedProposer(n *Node, st *sm.State) {
 	if !n.Byz {
 		nt.Mon.report("C07", map[string]string{"kind": "proposer-differs-after-reload", "site": "ValidatorSet.Proposer"},
 			fmt.Sprintf("node %d reloaded its state for height %d and computes validator %X as round-0 proposer; replicas that did not restart have %X (the cached proposer is not persisted and cannot be recomputed from the decremented accumulators)", n.Idx, h, got.Address[:4], want.Address[:4]))
+	}
+	if nt.Sc.NoProposerFix {
+		nt.drift = true
+		nt.Trace = append(nt.Trace, fmt.Sprintf("n%d continues with the wrong round-0 proposer (no harness repair in this scenario)", n.Idx))
+		return
 	}
 	st.Validators.VerifSetProposer(want.Address)
 }
